@@ -4,7 +4,7 @@ PROP = dict(
     module="JadeModel.Props.C07", ns="Jade.C07",
     required=["C07_batches_wellformed", "C07_batch_size_le", "C07_batch_time_le", "C07_no_blocked_without_tryadd",
               "C07_batches_disjoint", "C07_dryRun_same_batches", "C07_fuel_suffices", "C07_unvalidated_estimate_diverges"],
-    suites=["batch", "slurm"],
+    suites=["batch", "slurm", "system"],
     level_text="Machine-checked Lean theorems over _submit_batches/_make_batch/_BatchJobs for all candidate lists, all "
                "parameter sets, queue depths and sbatch outcome sequences (unbounded, by a loop invariant of the cursor "
                "algorithm); every decision of the loops is a predicate regenerated from hpc_submitter.py on each run; the "
